@@ -29,9 +29,17 @@ from torchtree.core.utils import process_object  # noqa: E402
 
 
 class P:
-    def __init__(self, shape, gen):
+    def __init__(self, shape, gen, specials=None):
+        """`specials`: [(label, g -> tensor)] boundary / special values of the same shape (exact zeros and ones,
+        ties, equal neighbours, values on a threshold of the code); the oracle puts ONE of them into ONE sample of a
+        batch whose other samples are ordinary"""
         self.shape = tuple(shape)
         self.gen = gen
+        self.specials = list(specials or [])
+
+    def with_specials(self, *sp):
+        self.specials += list(sp)
+        return self
 
 
 class Case:
@@ -57,20 +65,43 @@ def u(lo, hi):
     return gen
 
 
+def _const(shape, c):
+    return lambda g: torch.full(tuple(shape), float(c), dtype=torch.float64)
+
+
+def _equal_neighbours(gen):
+    """an ordinary draw whose first two entries along the last axis are exactly equal"""
+
+    def f(g):
+        x = gen(g).clone()
+        x[..., 1] = x[..., 0]
+        return x
+
+    return f
+
+
 def pos(*shape):
-    return P(shape, lambda g: u(0.3, 3.0)(g, shape))
+    gen = lambda g: u(0.3, 3.0)(g, shape)  # noqa: E731
+    sp = [("one", _const(shape, 1.0))]
+    if shape[-1] >= 2:
+        sp.append(("equal-neighbours", _equal_neighbours(gen)))
+    return P(shape, gen, sp)
 
 
 def real(*shape):
-    return P(shape, lambda g: u(-2.0, 2.0)(g, shape))
+    gen = lambda g: u(-2.0, 2.0)(g, shape)  # noqa: E731
+    sp = [("zero", _const(shape, 0.0))]
+    if shape[-1] >= 2:
+        sp.append(("equal-neighbours", _equal_neighbours(gen)))
+    return P(shape, gen, sp)
 
 
 def unit(*shape):
-    return P(shape, lambda g: u(0.1, 0.9)(g, shape))
+    return P(shape, lambda g: u(0.1, 0.9)(g, shape), [("zero", _const(shape, 0.0)), ("one", _const(shape, 1.0))])
 
 
 def small(*shape):
-    return P(shape, lambda g: u(0.01, 0.3)(g, shape))
+    return P(shape, lambda g: u(0.01, 0.3)(g, shape), [("zero", _const(shape, 0.0))])
 
 
 def simplex(n):
@@ -78,7 +109,7 @@ def simplex(n):
         x = u(0.5, 2.0)(g, (n,))
         return x / x.sum()
 
-    return P((n,), gen)
+    return P((n,), gen, [("uniform", _const((n,), 1.0 / n))])
 
 
 def increasing(n, start=0.0, lo=0.2, hi=1.5):
@@ -87,7 +118,25 @@ def increasing(n, start=0.0, lo=0.2, hi=1.5):
     def gen(g):
         return start + u(lo, hi)(g, (n,)).cumsum(-1)
 
-    return P((n,), gen)
+    def first_on_start(g):  # first value exactly on the lower bound (an internal node at the age of the last tip)
+        x = gen(g)
+        x[0] = start
+        return x
+
+    sp = [("first-on-bound", first_on_start)]
+    if n >= 2:
+        def tie(g):  # two equal event times
+            x = gen(g)
+            x[1] = x[0]
+            return x
+
+        def tie_last(g):
+            x = gen(g)
+            x[-1] = x[-2]
+            return x
+
+        sp += [("tie", tie), ("tie-last", tie_last)]
+    return P((n,), gen, sp)
 
 
 # ----------------------------------------------------------------------------- trees and data
@@ -243,7 +292,7 @@ SUBST_PARAMS = {
 def case_p_t(kind, B, K):
     """p_t(branch_lengths): as the tree likelihood calls it, with lengths [*sample, B, K]"""
     params = dict(SUBST_PARAMS[kind])
-    params["bl"] = P((B, K), lambda g: u(0.01, 0.5)(g, (B, K)))
+    params["bl"] = P((B, K), lambda g: u(0.01, 0.5)(g, (B, K)), [("zero", _const((B, K), 0.0))])
 
     def build(v):
         return mk_subst(kind, v).p_t(v["bl"])
@@ -310,7 +359,8 @@ def case_tree_likelihood(n, subst, site, tree_kind, clock=None, cats=3, with_mu=
     params.update(site_params(site, with_mu, with_inv))
     hetero = tree_kind != "unrooted"
     if tree_kind == "unrooted":
-        params["blens"] = P((2 * n - 3,), lambda g: u(0.01, 0.4)(g, (2 * n - 3,)))
+        params["blens"] = P((2 * n - 3,), lambda g: u(0.01, 0.4)(g, (2 * n - 3,)),
+                            [("zero", _const((2 * n - 3,), 0.0)), ("huge", _const((2 * n - 3,), 1.0e3))])
     elif tree_kind == "time":
         params["heights"] = heights_param(n, hetero)
     else:
@@ -502,16 +552,28 @@ def case_coalescent(which, n, hetero, tree_kind="time", grid_n=3, temperature=No
         params["theta"] = pos(1)
     elif which == "exponential":
         params["theta"] = pos(1)
-        params["growth"] = P((1,), lambda g: u(0.1, 1.0)(g, (1,)))
+        params["growth"] = P((1,), lambda g: u(0.1, 1.0)(g, (1,)), [("zero", _const((1,), 0.0))])
     elif which == "skyride":
         params["theta"] = pos(n - 1)
     elif which in ("skygrid", "linear"):
         params["theta"] = pos(grid_n + 1)
     elif which == "piecewise-exponential":
         params["theta"] = pos(grid_n + 1)
-        params["growth"] = P((grid_n + 1,), lambda g: u(0.1, 1.0)(g, (grid_n + 1,)))
+        params["growth"] = P((grid_n + 1,), lambda g: u(0.1, 1.0)(g, (grid_n + 1,)),
+                             [("zero", _const((grid_n + 1,), 0.0))])
     elif which == "integrated":
         pass
+
+    if tree_kind == "time" and which in ("skygrid", "linear", "piecewise-exponential"):
+        above = [float(x) for x in grid if float(x) > max_tip(n, hetero)]
+        if above:
+            def on_grid(g, g0=above[0]):  # the first coalescent event exactly on a grid point
+                x = params["heights"].gen(g)
+                return g0 + (x - x[0])
+
+            params["heights"].with_specials(("first-on-grid-point", on_grid))
+    if "theta" in params and params["theta"].shape[-1] >= 2:
+        params["theta"].with_specials(("all-equal", _const(params["theta"].shape, 1.5)))
 
     def build(v):
         tree = _tree_for(tree_kind, n, v, hetero)
